@@ -51,9 +51,11 @@ def hex16 (x : UInt64) : String :=
 
 def digest (bs : Bytes) : String := s!"B{bs.length}.{hex16 (fnv bs)}"
 
-def wireStr (w : Bytes) : String :=
+def wireStrL (limit : Nat) (w : Bytes) : String :=
   let s := s!"W{w.length}.{hex16 (fnv w)}"
-  if w.length ≤ 160 then s ++ " " ++ hexFast w else s
+  if w.length ≤ limit then s ++ " " ++ hexFast w else s
+
+def wireStr (w : Bytes) : String := wireStrL 160 w
 
 def genBody (seed len mode : Nat) : Bytes :=
   let rec go (k : Nat) (x : Nat) (acc : Array UInt8) : Array UInt8 :=
@@ -341,6 +343,7 @@ def opDl (seed : Nat) (sizes : List Nat) (cs : List DlClient) : String :=
   | none => s!"ok {cs.length}"
 
 structure St where
+  wireLimit : Nat := 160
   options : Bool := true    -- OPTIONS handled by the library's handleOptions
 
 def opRaw (st : St) (pipelined : Bool) (k : Nat) (ts : List String) : String :=
@@ -371,11 +374,12 @@ def opRaw (st : St) (pipelined : Bool) (k : Nat) (ts : List String) : String :=
           let (q, w, keep, _) := serveStep st.options sBase it.2.2 (Inp.ofBytes it.1 it.2.1)
           (acc.1 ++ [(q, w)], keep)) ([], true)
         res
-    let strs := outs.map fun (q, w) => obsOrDash q "" ++ " " ++ wireStr w ++ (if w.isEmpty then " short" else "")
+    let strs := outs.map fun (q, w) => obsOrDash q "" ++ " " ++ wireStrL st.wireLimit w ++ (if w.isEmpty then " short" else "")
     " ; ".intercalate strs ++ " ; R0"
 
 def step (st : St) (ts : List String) : St × String :=
   match ts with
+  | ["wirelimit", n] => ({ st with wireLimit := n.toNat?.getD 160 }, "ok")
   | ["options", v] => ({ st with options := v != "1" }, "ok")
   | "xchg" :: rest =>
     match reqOf rest with
